@@ -9,8 +9,7 @@ PROP = {
     'areas': [('cmap4', 250, 6000)],
     'rule': 'distinct case lines (map / vertex / bytes / probe codes); non-trivial = map with at least two entries or a mutated subtable',
     'partial': ['C09_fmt4_64k is the full statement on the property domain (subtable shorter than 64 KiB, which forces fewer than 8190 segments); C09_fmt4 is kept with the weaker hypothesis path.length < 32768 (segCountX2 is a 16-bit field: with 32768 or more segments the header wraps silently)',
-                'Format4.Encode beyond the 64 KiB subtable limit (uint16 Length wraps) is outside the stated domain and not covered',
-                'Mac Roman code2rune mapping (platform 1) is not modelled: decoders are modelled with the identity code mapping'],
+                'Format4.Encode beyond the 64 KiB subtable limit (uint16 Length wraps) is outside the stated domain and not covered'],
     'modelled_not_verified': ['seehuhn.de/go/dijkstra is an untrusted oracle: theorems quantify over every path of proposed edges; the harness checks that the Go-chosen path is such a path',
                               'encoding/binary packing re-implemented (be16) and compared byte-exactly'],
     'assumptions': ['glyph ids are compared modulo 65536 (glyph.ID is uint16)'],
